@@ -75,9 +75,9 @@ func (e ecfg) encForBytes() string {
 type item struct {
 	K    string `json:"k"` // plain | comp | empty1 | lie-long | lie-short | lie-huge | flag | corrupt | bomb | gzbomb
 	Size int    `json:"size"`
-	PK   int    `json:"pk"`   // msgfix.Pattern kind
-	Arg  int64  `json:"arg"`  // lie delta / declared / flag value / bomb size
-	Tag  uint32 `json:"tag"`  // pattern tag
+	PK   int    `json:"pk"`  // msgfix.Pattern kind
+	Arg  int64  `json:"arg"` // lie delta / declared / flag value / bomb size
+	Tag  uint32 `json:"tag"` // pattern tag
 }
 
 type scenario struct {
@@ -85,9 +85,9 @@ type scenario struct {
 	Limit  int    `json:"limit"` // -1 = do not configure (default 4 MB)
 	E      ecfg   `json:"e"`
 	Items  []item `json:"items"`
-	Cut    int    `json:"cut"`    // drop this many bytes from the end of the stream (truncation)
-	Split  int64  `json:"split"`  // PRNG seed of the segmentation
-	Mode   string `json:"mode"`   // whole | rand | tiny
+	Cut    int    `json:"cut"`   // drop this many bytes from the end of the stream (truncation)
+	Split  int64  `json:"split"` // PRNG seed of the segmentation
+	Mode   string `json:"mode"`  // whole | rand | tiny
 	Pad    bool   `json:"pad"`
 	EndSep bool   `json:"endsep"` // server role: END_STREAM on a separate empty DATA frame
 }
@@ -786,7 +786,7 @@ func TestVerifC06(t *testing.T) {
 	runE2E(t, r, r.N(200, 2000)/div())
 	r.Finish(vlib.Spec{
 		Level: "exploration",
-		Rule: "E1: a scripted HTTP/2 peer sends a byte stream to a real server handler / real client application (receive limit in {0,1,4,5,6,100,1000,16384,65535,100000, default 4MB}; 12 grpc-encoding x decompressor configurations: absent, identity, registered gzip / vz-a / vz-b, legacy gzip, legacy custom, legacy shadowing a registered one, unknown, mismatching legacy) segmented into DATA frames of 0..16384 bytes (1-6 byte frames in mode tiny) with optional padding. Families: seg = valid messages of sizes {0,1,limit-1,limit,random} plain or compressed plus optionally one of size limit+1 (plain or highly compressible); hostile = one of {declared>actual, declared<actual, declared in {limit+1,2^31-1,2^31,2^32-1}, flag byte in {2,3,0x80,0x81,0xfe,0xff}, compressed flag on any encoding, compressed flag on empty payload, corrupt compressed payload, stream cut 1..45 bytes short, limit+1 plain, limit+1 inflated} between valid messages; bomb = 12-byte vz payload declaring limit+1..2^62 bytes; gzbomb = 64KB gzip inflating to 64MB; e2e = real client <-> real server echo with 0-6 messages around both limits and compressor in {none, gzip, vz-a, legacy gzip, legacy custom}. Oracle = msgfix.Reference (independent parser of the length-prefixed stream): delivered messages equal the acceptable prefix byte for byte, oversize (declared or inflated) => RESOURCE_EXHAUSTED, truncated body / unknown flag / corrupt => error, compressed flag with identity => INTERNAL, without decompressor => INTERNAL (client) / UNIMPLEMENTED (server), bytes drawn from a library-driven decompressor <= limit+1, TotalAlloc delta of a gzip bomb <= 8*limit+24MB. non-trivial = the case reached its judged end; distinct = (role, encoding+legacy, reference end, boundary class: delivered-at-limit / declared-limit+1 / inflated-limit+1 / ...)",
+		Rule:  "E1: a scripted HTTP/2 peer sends a byte stream to a real server handler / real client application (receive limit in {0,1,4,5,6,100,1000,16384,65535,100000, default 4MB}; 12 grpc-encoding x decompressor configurations: absent, identity, registered gzip / vz-a / vz-b, legacy gzip, legacy custom, legacy shadowing a registered one, unknown, mismatching legacy) segmented into DATA frames of 0..16384 bytes (1-6 byte frames in mode tiny) with optional padding. Families: seg = valid messages of sizes {0,1,limit-1,limit,random} plain or compressed plus optionally one of size limit+1 (plain or highly compressible); hostile = one of {declared>actual, declared<actual, declared in {limit+1,2^31-1,2^31,2^32-1}, flag byte in {2,3,0x80,0x81,0xfe,0xff}, compressed flag on any encoding, compressed flag on empty payload, corrupt compressed payload, stream cut 1..45 bytes short, limit+1 plain, limit+1 inflated} between valid messages; bomb = 12-byte vz payload declaring limit+1..2^62 bytes; gzbomb = 64KB gzip inflating to 64MB; e2e = real client <-> real server echo with 0-6 messages around both limits and compressor in {none, gzip, vz-a, legacy gzip, legacy custom}. Oracle = msgfix.Reference (independent parser of the length-prefixed stream): delivered messages equal the acceptable prefix byte for byte, oversize (declared or inflated) => RESOURCE_EXHAUSTED, truncated body / unknown flag / corrupt => error, compressed flag with identity => INTERNAL, without decompressor => INTERNAL (client) / UNIMPLEMENTED (server), bytes drawn from a library-driven decompressor <= limit+1, TotalAlloc delta of a gzip bomb <= 8*limit+24MB. non-trivial = the case reached its judged end; distinct = (role, encoding+legacy, reference end, boundary class: delivered-at-limit / declared-limit+1 / inflated-limit+1 / ...)",
 		Assumptions: []string{
 			"compress/gzip (stdlib) is the reference for gzip payloads; the vz format's reference decoder is msgfix.VZDecode",
 			"a stream cut inside the 5-byte prefix may be reported as clean EOF or as an error (the statement only requires that no message is delivered); counted in trunc_header_reported_as_*",
